@@ -628,6 +628,9 @@ impl<'a, 'b, 'c, F: Fam> BatchController<'a, 'b, 'c> for CustomCtl<F> {
             if ctx.seq_inner.load(SeqCst) {
                 dispatcher.dispatch_seq(world);
                 dispatcher.dispatch_thread_local(world);
+            } else if idx % 2 == 1 {
+                // the trait-object entry point of the inner dispatcher
+                shred::RunNow::run_now(dispatcher, world);
             } else {
                 dispatcher.dispatch(world);
             }
